@@ -99,6 +99,12 @@ class SpecCtx:
                     return v
             if "$" + n in self.names:
                 return self.names["$" + n]
+            if n == "i" and getattr(self, "loop_frame", None) is not None:
+                fr = self.loop_frame
+                for ins in fr.fn["blocks"][self.loop_head]["instrs"]:
+                    if ins["op"] == "Phi" and (ins["aux"].get("comment") == "rangeindex"):
+                        return to_int(fr.env[ins["name"]]) + 1
+                raise SpecError("$i: the loop is not a range-over-slice loop")
             raise SpecError("unbound $" + n)
         if k == "old":
             prev = self.in_old
